@@ -69,8 +69,48 @@ class ExprMixin:
     def e_JoinedStr(self, node: ast.JoinedStr, frame: Frame) -> V:
         if all(isinstance(v, ast.Constant) for v in node.values):
             return StrV(s="".join(v.value for v in node.values))
-        # the VALUE of a formatted string is not modelled (messages, labels): opaque
-        return self.opaque_str("fstring")
+        # a formatted string is an uninterpreted (deterministic) function of its template and of
+        # the formatted values; nothing is known about its characters
+        template = []
+        terms = []
+        concrete: list = []
+        all_concrete = True
+        for part in node.values:
+            if isinstance(part, ast.Constant):
+                template.append(str(part.value).replace("{", "{{").replace("}", "}}"))
+                continue
+            if part.format_spec is not None and not all(isinstance(v, ast.Constant) for v in part.format_spec.values):
+                return self.opaque_str("fstring")
+            spec = "".join(v.value for v in part.format_spec.values) if part.format_spec is not None else ""
+            conv = {-1: "", 115: "!s", 114: "!r", 97: "!a"}.get(part.conversion, "")
+            template.append("{" + conv + (":" + spec if spec else "") + "}")
+            try:
+                value = self.eval(part.value, frame)
+            except Unsupported:
+                return self.opaque_str("fstring")
+            if isinstance(value, StrV):
+                terms.append(self.ctx.str_term(value))
+                if value.s is None:
+                    all_concrete = False
+                concrete.append(value.s)
+            elif isinstance(value, (IntV, BoolV)) and not isinstance(value, BoolV):
+                terms.append(value.t)
+                c = conc_int(value)
+                if c is None:
+                    all_concrete = False
+                concrete.append(c)
+            else:
+                return self.opaque_str("fstring")
+        text = "".join(template)
+        if all_concrete:
+            try:
+                return StrV(s=text.format(*concrete))
+            except (ValueError, IndexError):
+                pass
+        import z3 as _z3
+        fn = _z3.Function("fstr:" + text + ":" + ",".join(str(t.sort()) for t in terms),
+                          *[t.sort() for t in terms], self.ctx.str_term(StrV(s="")).sort())
+        return StrV(t=fn(*terms))
 
     def e_Attribute(self, node: ast.Attribute, frame: Frame) -> V:
         base = self.eval(node.value, frame)
